@@ -247,7 +247,20 @@ def z5(cx):
             continue
         n += 1
         g = cx.graph(fn['key'], defaults=True)
-        sums, _ = P.summaries(g, item_arg=0, maxd=40)
+        # forking a pipeline does no work: clone() runs no user function kept in the value being cloned (a `start`/`defer` closure run
+        # at clone time runs once for the whole family of forks, with nothing subscribed, instead of once per subscription)
+        work = [x for x in g.nodes if x['kind'] == 'call' and x['name'] in FN_CALLS]
+        if work:
+            res.append(Finding(ID, 'Z5', '<%s as Clone>::clone' % tag, False,
+                               'clone() calls a user function (%s): forking the pipeline runs the work that belongs to a subscription, once for all forks' % render(work[0]['value'])[:80],
+                               g.loc(work[0]), [node_desc(g, work[0])]))
+            continue
+        from ..core import Incomplete
+        try:
+            sums, _ = P.summaries(g, item_arg=0, maxd=40)
+        except Incomplete as e:
+            res.append(Finding(ID, 'Z5', '<%s as Clone>::clone' % tag, True, 'undecided (%s): not a plain struct literal; no user function is called' % e, fn['span']))
+            continue
         ftys = dict(roles.adt_fields(cx, tag))
         bad = None
         for sm, key in sums:
